@@ -469,3 +469,21 @@ pub fn snippet_fmt_window(
 pub fn ring_trim_utf8(bytes: Vec<u8>, start_offset: u64, start_line: usize) -> (u64, usize, Vec<u8>) {
     crate::ring_reader::verif_trim(bytes, start_offset, start_line)
 }
+
+// ---- C12: serializer-side plain-safety predicates ----
+
+pub fn ser_is_numeric_looking(s: &str) -> bool {
+    crate::ser_quoting::verif::numeric_looking(s)
+}
+pub fn ser_is_ambiguous(s: &str) -> bool {
+    crate::ser_quoting::verif::ambiguous(s)
+}
+pub fn ser_is_ambiguous_value(s: &str, yaml_12: bool) -> bool {
+    crate::ser_quoting::verif::ambiguous_value(s, yaml_12)
+}
+pub fn ser_is_plain_safe(s: &str) -> bool {
+    crate::ser_quoting::is_plain_safe(s)
+}
+pub fn ser_is_plain_value_safe(s: &str, yaml_12: bool, in_flow: bool) -> bool {
+    crate::ser_quoting::is_plain_value_safe(s, yaml_12, in_flow)
+}
